@@ -97,9 +97,7 @@ Proof.
   - simpl. rewrite IH. destruct (resolve fuel fr d e1); reflexivity.
   - pose proof (resolve_args_map s fuel fr d IH args) as Ha.
     destruct g as [x|c|e1 a|g' args'|ps b|op args'].
-    + pose proof (IH fr d (EName x)) as Hg. simpl in Hg. simpl. rewrite Hg, Ha.
-      destruct (resolve fuel fr d (EName x)); simpl; [|reflexivity].
-      destruct (map_opt (resolve fuel fr d) args); reflexivity.
+    + simpl. rewrite Ha. destruct (map_opt (resolve fuel fr d) args); reflexivity.
     + pose proof (IH fr d (EConst c)) as Hg. simpl in Hg. simpl. rewrite Hg, Ha.
       destruct (resolve fuel fr d (EConst c)); simpl; [|reflexivity].
       destruct (map_opt (resolve fuel fr d) args); reflexivity.
@@ -183,7 +181,13 @@ Inductive aeq : bctx -> bctx -> expr -> expr -> Prop :=
     binder_of c1 x = None -> binder_of c2 x = None -> aeq c1 c2 (EName x) (EName x)
 | AE_const c1 c2 k : aeq c1 c2 (EConst k) (EConst k)
 | AE_attr c1 c2 e1 e2 a : aeq c1 c2 e1 e2 -> aeq c1 c2 (EAttr e1 a) (EAttr e2 a)
+| AE_call_fn c1 c2 f a1 a2 :
+    (* a name in func position is a function name: the translator dispatches on it without resolving it, so it
+       must be free on both sides; queries that call one of their own parameters are related to nothing *)
+    binder_of c1 f = None -> binder_of c2 f = None ->
+    Forall2 (aeq c1 c2) a1 a2 -> aeq c1 c2 (ECall (EName f) a1) (ECall (EName f) a2)
 | AE_call c1 c2 g1 g2 a1 a2 :
+    (match g1 with EName _ => false | _ => true end) = true ->
     aeq c1 c2 g1 g2 -> Forall2 (aeq c1 c2) a1 a2 -> aeq c1 c2 (ECall g1 a1) (ECall g2 a2)
 | AE_lam c1 c2 ps1 ps2 b1 b2 :
     List.length ps1 = List.length ps2 -> aeq (ps1 :: c1) (ps2 :: c2) b1 b2 ->
@@ -267,12 +271,15 @@ Proof.
   - simpl. rewrite (lookup_free c1 x H), (lookup_free c2 x H0). reflexivity.
   - reflexivity.
   - simpl in Hn. simpl. rewrite (IH c1 c2 e0 e3 Hs H Hn). reflexivity.
-  - simpl in Hn. apply andb_prop in Hn. destruct Hn as [Hg Hb].
+  - simpl in Hn. simpl. rewrite !map_opt_eq. rewrite (Hargs a1 a2 H1 Hn). reflexivity.
+  - rename H into Hnn. rename H0 into Hgg. rename H1 into Haa.
+    simpl in Hn. apply andb_prop in Hn. destruct Hn as [Hg Hb].
     rewrite (same_shape_depth _ _ Hs) in *.
     assert (Hgn : no_app g1 = true) by (destruct g1; try exact Hg; discriminate).
-    pose proof (IH c1 c2 g1 g2 Hs H Hgn) as Eg. pose proof (Hargs a1 a2 H0 Hb) as Eargs.
+    pose proof (IH c1 c2 g1 g2 Hs Hgg Hgn) as Eg. pose proof (Hargs a1 a2 Haa Hb) as Eargs.
     rewrite (same_shape_depth _ _ Hs) in Eg.
-    inversion H; subst; simpl in Hg; try discriminate Hg; simpl; rewrite !map_opt_eq, Eargs, Eg; reflexivity.
+    inversion Hgg; subst; simpl in Hg; simpl in Hnn; try discriminate Hg; try discriminate Hnn;
+      simpl; rewrite !map_opt_eq, Eargs, Eg; reflexivity.
   - simpl in Hn. simpl. rewrite H. rewrite (same_shape_depth _ _ Hs).
     assert (Hs' : same_shape (ps1 :: c1) (ps2 :: c2)) by (constructor; assumption).
     pose proof (IH (ps1 :: c1) (ps2 :: c2) b1 b2 Hs' H0 Hn) as Eb. simpl in Eb.
@@ -294,11 +301,11 @@ Definition capture_q (inner : string) : expr :=
 Lemma capture_aeq : aeq [] [] (capture_q "z") (capture_q "y").
 Proof.
   unfold capture_q.
-  apply AE_lam; [reflexivity|]. apply AE_call.
-  - apply AE_lam; [reflexivity|]. apply AE_call.
+  apply AE_lam; [reflexivity|]. apply AE_call; [reflexivity| |].
+  - apply AE_lam; [reflexivity|]. apply AE_call; [reflexivity| |].
     + apply AE_lam; [reflexivity|]. apply AE_bound with (p := (1, 0)); reflexivity.
     + repeat constructor.
-  - constructor; [|constructor]. apply AE_call; [|constructor].
+  - constructor; [|constructor]. apply AE_call; [reflexivity| |constructor].
     apply AE_attr. apply AE_bound with (p := (0, 0)); reflexivity.
 Qed.
 
@@ -367,19 +374,14 @@ Definition call_param (p : string) : expr :=
   ECall (EName "Select") [EConst "<seq>"; ELam [p] (ECall (EName p) [EConst "1.0"])].
 
 Theorem known_function_param_refuted :
-  exists q1 q2 c1 c2,
-    aeq [] [] q1 q2 /\ no_app q1 = true /\
-    resolve_top 20 (rewrite ["sin"] [] [] q1) = Some c1 /\
-    resolve_top 20 (rewrite ["sin"] [] [] q2) = Some c2 /\ c1 <> c2.
+  exists q c1 c2,
+    no_app q = true /\
+    resolve_top 20 (rewrite ["sin"] [] [] q) = Some c1 /\
+    resolve_top 20 (rewrite ["sin"] [] [] (map_names (swap "f" "sin") q)) = Some c2 /\ c1 <> c2.
 Proof.
-  exists (call_param "f"), (call_param "sin").
-  exists (CCall (CFree "Select") [CConst "<seq>"; CLam 1 (CCall (CVal 0) [CConst "1.0"])]).
+  exists (call_param "f").
+  exists (CCall (CFree "Select") [CConst "<seq>"; CLam 1 (CCall (CFree "f") [CConst "1.0"])]).
   exists (CCall (CFree "Select") [CConst "<seq>"; CLam 1 (CCall (CConst "<fn:sin>") [CConst "1.0"])]).
-  split.
-  { unfold call_param. apply AE_call; [apply AE_free; reflexivity|].
-    constructor; [constructor|]. constructor; [|constructor].
-    apply AE_lam; [reflexivity|]. apply AE_call; [|repeat constructor].
-    apply AE_bound with (p := (0, 0)); reflexivity. }
   split; [reflexivity|]. split; [vm_compute; reflexivity|]. split; [vm_compute; reflexivity|].
   discriminate.
 Qed.
